@@ -5,7 +5,8 @@
    NOT proved here (validated numerically by the harness oracle on the implementation): integer
    Berg-Luescher charge for whole-sphere wrappings, hedgehog = one Bloch point, Nxx+Nyy+Nzz = -delta,
    demag factors summing to -|M|. *)
-From DF Require Import Prelude FieldK NDArray Diff Integrate Region Mesh Tools Rotate90 C19_vec C19_density C19_cont C19_angle C19_uniform C19_quarter.
+From Coq Require Import Qcanon.
+From DF Require Import Prelude FieldK NDArray Diff Integrate Region Mesh Tools Rotate90 C19_vec C19_density C19_cont C19_angle C19_uniform C19_quarter CheckSound Check_C19 C19_sound.
 
 (* --- the algebra behind rotation invariance --- *)
 Theorem C19_triple_product_under_matrix : forall (K : FOps), FLaws K -> forall (M : mat3 K) (a b c : vec K),
@@ -276,3 +277,172 @@ Theorem C19_N_relabel : forall (K : FOps) (fN gN : K -> K -> K -> K) pi4 dx dy d
   nth 5 (N6 K fN gN pi4 dx dy dz x y z) (f0 K) = nth 3 (N6 K fN gN pi4 dy dz dx y z x) (f0 K).
 Proof. exact N6_relabel. Qed.
 Print Assumptions C19_N_relabel.
+
+
+(* --- checker soundness and transfer: what an ACCEPTED correspondence case certifies about the
+       OBSERVED output (C19_sound.v).  Tolerance-compared outputs give a distance bound
+       (within e a b := |a - b| <= e); shapes, cell counts and mesh corners are compared by equality. --- *)
+Theorem C19_check_sound_continuous_density : forall sh h1 h2 per1 per2 c4 o valid obs,
+  check_C19 (CTcdCont sh h1 h2 per1 per2 c4 o valid obs) = true ->
+  length sh = 2%nat /\ length o = nprod (sh ++ [3%nat]) /\ length valid = nprod sh /\
+  length obs = nprod sh /\
+  forall i, inb sh i = true ->
+    within (tol9 * (16 * Qabs c4 * hmin2 h1 h2))%Q
+           (this (tcd_cont QcOps (qc c4) sh (qc h1) (qc h2) per1 per2 (varr sh o) (marr sh valid) i))
+           (this (nth (ravel sh i) (qcl obs) 0%Qc)).
+Proof. exact check_tcd_cont_sound. Qed.
+Print Assumptions C19_check_sound_continuous_density.
+
+Theorem C19_check_sound_lattice_density : forall sh h1 h2 o valid table obs,
+  check_C19 (CTcdBL sh h1 h2 o valid table obs) = true ->
+  length sh = 2%nat /\ length o = nprod (sh ++ [3%nat]) /\ length valid = nprod sh /\
+  length obs = nprod sh /\
+  forall i, inb sh i = true ->
+    within (tol9 * (4 * hmin2 h1 h2))%Q
+           (this (tcd_bl QcOps (lookup4 table) sh (qc h1) (qc h2) (varr sh o) (marr sh valid) i))
+           (this (nth (ravel sh i) (qcl obs) 0%Qc)).
+Proof. exact check_tcd_bl_sound. Qed.
+Print Assumptions C19_check_sound_lattice_density.
+
+Theorem C19_check_sound_charge : forall absolute sh dV q obs,
+  check_C19 (CCharge absolute sh dV q obs) = true ->
+  length q = nprod sh /\
+  within (tol9 * charge_scale dV q)%Q
+         (this (charge QcOps qc_abs absolute sh (qc dV) (sarr sh q))) (this (qc obs)).
+Proof. exact check_charge_sound. Qed.
+Print Assumptions C19_check_sound_charge.
+
+Theorem C19_check_sound_angle : forall sh ax deg deg_factor o acos_table obs_shape obs,
+  check_C19 (CAngle sh ax deg deg_factor o acos_table obs_shape obs) = true ->
+  length o = nprod (sh ++ [3%nat]) /\ obs_shape = angle_shape sh ax /\
+  length obs = nprod (angle_shape sh ax) /\
+  forall i, inb (angle_shape sh ax) i = true ->
+    within (tol6 * (if deg then 180 else 1))%Q
+           (this (angle_arr QcOps (lookup1 acos_table) qc_clip (fun x => Qcmult x (qc deg_factor)) ax deg
+                            (varr sh o) i))
+           (this (nth (ravel (angle_shape sh ax) i) (qcl obs) 0%Qc)).
+Proof. exact check_angle_sound. Qed.
+Print Assumptions C19_check_sound_angle.
+
+Theorem C19_check_sound_angle_mesh : forall p1 p2 n_ ax lo hi k,
+  check_C19 (CAngleMesh p1 p2 n_ ax (Some (lo, hi, k))) = true ->
+  exists m a, src_mesh p1 p2 n_ = OK m /\ angle_mesh m ax = OK a /\
+              Forall2 Qeq (pmin (reg a)) lo /\ Forall2 Qeq (pmax (reg a)) hi /\ n a = k.
+Proof. exact check_angle_mesh_sound. Qed.
+Print Assumptions C19_check_sound_angle_mesh.
+
+Theorem C19_check_sound_angle_mesh_rejected : forall p1 p2 n_ ax,
+  check_C19 (CAngleMesh p1 p2 n_ ax None) = true ->
+  exists m e, src_mesh p1 p2 n_ = OK m /\ angle_mesh m ax = Err e.
+Proof. exact check_angle_mesh_reject_sound. Qed.
+Print Assumptions C19_check_sound_angle_mesh_rejected.
+
+Theorem C19_check_sound_emergent : forall sh h per m valid obs,
+  check_C19 (CEmergent sh h per m valid obs) = true ->
+  length sh = 3%nat /\ length m = nprod (sh ++ [3%nat]) /\ length valid = nprod sh /\
+  length obs = nprod (sh ++ [3%nat]) /\
+  forall i, inb (sh ++ [3%nat]) i = true ->
+    within (tol9 * emergent_scale h m)%Q
+           (this (emergent QcOps sh (qcl h) per (varr sh m) (marr sh valid) i))
+           (this (nth (ravel (sh ++ [3%nat]) i) (qcl obs) 0%Qc)).
+Proof. exact check_emergent_sound. Qed.
+Print Assumptions C19_check_sound_emergent.
+
+(* round_near x z: z is the half-even rounding of x - 1e-6 or of x + 1e-6 *)
+Theorem C19_check_sound_bloch_points : forall sh h per dir c4 o valid obs_numbers,
+  check_C19 (CBps sh h per dir c4 o valid obs_numbers) = true ->
+  length sh = 3%nat /\ length o = nprod (sh ++ [3%nat]) /\ length valid = nprod sh /\
+  Forall2 round_near
+          (bp_cum QcOps (qc c4) (qc (nth dir h 0%Q))
+                  (bp_profile QcOps sh (qcl h) per dir (varr sh o) (marr sh valid)))
+          obs_numbers.
+Proof. exact check_bps_sound. Qed.
+Print Assumptions C19_check_sound_bloch_points.
+
+Theorem C19_check_sound_demag : forall pi4 cell_ pts ftab gtab obs,
+  check_C19 (CDemagN pi4 cell_ pts ftab gtab obs) = true ->
+  length cell_ = 3%nat /\
+  Forall2 (fun p ob => six_close (N6_at pi4 cell_ ftab gtab p) ob) pts obs.
+Proof. exact check_demag_sound. Qed.
+Print Assumptions C19_check_sound_demag.
+
+(* transfer: C19_angle_value / C19_angle_shape on the observed angle array *)
+Theorem C19_accepted_angle_value : forall sh ax deg_factor o acos_table obs_shape obs i,
+  check_C19 (CAngle sh ax false deg_factor o acos_table obs_shape obs) = true ->
+  inb (angle_shape sh ax) i = true ->
+  within (tol6 * 1)%Q
+    (this (lookup1 acos_table (qc_clip (dot3 QcOps (vec_at QcOps (varr sh o) i)
+                 (vec_at QcOps (varr sh o) (set_nth ax (nth ax i 0%nat + 1)%nat i))))))
+    (this (nth (ravel (angle_shape sh ax) i) (qcl obs) 0%Qc)).
+Proof. exact accepted_angle_value. Qed.
+Print Assumptions C19_accepted_angle_value.
+
+Theorem C19_accepted_angle_shape : forall sh ax deg deg_factor o acos_table obs_shape obs,
+  check_C19 (CAngle sh ax deg deg_factor o acos_table obs_shape obs) = true ->
+  (ax < length sh)%nat ->
+  nth ax obs_shape 0%nat = (nth ax sh 0%nat - 1)%nat /\
+  (forall b, b <> ax -> nth b obs_shape 0%nat = nth b sh 0%nat) /\
+  length obs = nprod obs_shape.
+Proof. exact accepted_angle_shape. Qed.
+Print Assumptions C19_accepted_angle_shape.
+
+(* transfer: C19_charge_of_reversed_density on two observed charges *)
+Theorem C19_accepted_charge_reversal : forall sh dV q obs1 obs2,
+  check_C19 (CCharge false sh dV q obs1) = true ->
+  check_C19 (CCharge false sh dV (map Qopp q) obs2) = true ->
+  (Qabs (obs1 + obs2) <= tol9 * charge_scale dV q + tol9 * charge_scale dV (map Qopp q))%Q.
+Proof. exact accepted_charge_reversal. Qed.
+Print Assumptions C19_accepted_charge_reversal.
+
+(* transfer: C19_rot_invariant_lattice on two observed Berg-Luescher densities (the rotated vectors are
+   required at in-range cells only: the density reads no other cell, tcd_bl_inrange_ext) *)
+Theorem C19_accepted_lattice_rotation : forall n0 n1 h1 h2 o o' valid table obs obs' (M : mat3 QcOps) i j,
+  check_C19 (CTcdBL [n0; n1] h1 h2 o valid table obs) = true ->
+  check_C19 (CTcdBL [n0; n1] h1 h2 o' valid table obs') = true ->
+  col_orthogonal QcOps M -> det3 QcOps M = f1 QcOps ->
+  (forall a b, (a < n0)%nat -> (b < n1)%nat ->
+     vec_at QcOps (varr [n0; n1] o') [a; b] = mv QcOps M (vec_at QcOps (varr [n0; n1] o) [a; b])) ->
+  (i < n0)%nat -> (j < n1)%nat ->
+  (Qabs (this (nth (ravel [n0; n1] [i; j]) (qcl obs) 0%Qc) - this (nth (ravel [n0; n1] [i; j]) (qcl obs') 0%Qc))
+   <= tol9 * (4 * hmin2 h1 h2) + tol9 * (4 * hmin2 h1 h2))%Q.
+Proof. exact accepted_lattice_rotation. Qed.
+Print Assumptions C19_accepted_lattice_rotation.
+
+(* transfer: C19_uniform_zero_lattice on an observed Berg-Luescher density *)
+Theorem C19_accepted_lattice_uniform : forall n0 n1 h1 h2 o valid table obs (v : vec QcOps) i j,
+  check_C19 (CTcdBL [n0; n1] h1 h2 o valid table obs) = true ->
+  (forall d1 d2 d3, lookup4 table d1 d2 d3 (f0 QcOps) = f0 QcOps) ->
+  (forall a b, (a < n0)%nat -> (b < n1)%nat -> vec_at QcOps (varr [n0; n1] o) [a; b] = v) ->
+  (i < n0)%nat -> (j < n1)%nat ->
+  (Qabs (this (nth (ravel [n0; n1] [i; j]) (qcl obs) 0%Qc)) <= tol9 * (4 * hmin2 h1 h2))%Q.
+Proof. exact accepted_lattice_uniform. Qed.
+Print Assumptions C19_accepted_lattice_uniform.
+
+(* transfer: C19_N_relabel on two observed demag tensors *)
+Theorem C19_accepted_demag_relabel : forall pi4 dx dy dz x y z ftab gtab ob1 ob2,
+  check_C19 (CDemagN pi4 [dx; dy; dz] [[x; y; z]] ftab gtab [ob1]) = true ->
+  check_C19 (CDemagN pi4 [dy; dz; dx] [[y; z; x]] ftab gtab [ob2]) = true ->
+  (Qabs (this (nth 1 (qcl ob1) 0%Qc) - this (nth 0 (qcl ob2) 0%Qc)) <= tol6 * 1 + tol6 * 1)%Q.
+Proof. exact accepted_demag_relabel. Qed.
+Print Assumptions C19_accepted_demag_relabel.
+
+(* the hypotheses are satisfiable: concrete accepted cases *)
+Example C19_accepted_charge_nonvacuous :
+  check_C19 (CCharge false [2]%nat (1#2)%Q [1; 3]%Q 2%Q) = true /\
+  check_C19 (CCharge false [2]%nat (1#2)%Q (map Qopp [1; 3]%Q) (-2)%Q) = true.
+Proof. exact accepted_charge_instance. Qed.
+Print Assumptions C19_accepted_charge_nonvacuous.
+
+Example C19_accepted_angle_nonvacuous :
+  check_C19 (CAngle [2]%nat 0 false 1%Q [1; 0; 0; 0; 1; 0]%Q [(0, 11#7)%Q] [1]%nat [(11#7)%Q]) = true.
+Proof. exact accepted_angle_instance. Qed.
+Print Assumptions C19_accepted_angle_nonvacuous.
+
+Example C19_accepted_lattice_rotation_nonvacuous :
+  check_C19 (CTcdBL [2;2]%nat 1%Q 1%Q ex_o1 [true;true;true;true] ex_tb [-(1#4); 0; 0; 1#4]%Q) = true /\
+  check_C19 (CTcdBL [2;2]%nat 1%Q 1%Q ex_o2 [true;true;true;true] ex_tb [-(1#4); 0; 0; 1#4]%Q) = true /\
+  col_orthogonal QcOps ex_M /\ det3 QcOps ex_M = f1 QcOps /\
+  (forall a b, (a < 2)%nat -> (b < 2)%nat ->
+     vec_at QcOps (varr [2;2]%nat ex_o2) [a; b] = mv QcOps ex_M (vec_at QcOps (varr [2;2]%nat ex_o1) [a; b])).
+Proof. exact accepted_lattice_rotation_instance. Qed.
+Print Assumptions C19_accepted_lattice_rotation_nonvacuous.
